@@ -24,17 +24,28 @@ class LogWriter:
     """Recording stand-in for asyncio.StreamWriter.  Like the real one, drain() on a connection that was closed raises
     ConnectionResetError (StreamWriter.drain -> FlowControlMixin._drain_helper after connection_lost)."""
 
-    def __init__(self, chan, log):
+    def __init__(self, chan, log, slow=0, stall=None):
         self.chan = chan
         self.log = log
         self.closed = False
+        self.slow = slow          # extra event-loop turns every drain() takes (a back-pressured transport)
+        self.stall = stall        # (w, m): the drain() after the w-th write takes m turns (a transiently full send buffer)
+        self.nwrites = 0
 
     def write(self, data):
         if not self.closed:
             self.log.append((self.chan, bytes(data)))
+            self.nwrites += 1
 
     async def drain(self):
-        await asyncio.sleep(0)
+        turns = 1 + self.slow
+        if self.stall and self.nwrites == self.stall[0]:
+            turns += self.stall[1]
+        if self.stall and isinstance(self.stall[0], str) and self.log and self.log[-1][0] == self.chan \
+                and (b'"msg_type": "' + self.stall[0].encode() + b'"') in self.log[-1][1]:
+            turns += self.stall[1]        # the send buffer fills up right after a message of that type
+        for _ in range(turns):
+            await asyncio.sleep(0)
         if self.closed:
             raise ConnectionResetError("Connection lost")
 
@@ -206,6 +217,17 @@ def build_request(spec, key, n):
     return wire, header, json_ok
 
 
+async def reference_handshake(sock_type):
+    """The bytes a ZmqSocket of this type writes during its handshake (measured, not hard-coded)."""
+    from custom_components.pyscript.jupyter_kernel import ZmqSocket
+
+    r = asyncio.StreamReader()
+    r.feed_data(GREETING)
+    log = []
+    await ZmqSocket(r, LogWriter("x", log), sock_type).handshake()
+    return b"".join(raw for _c, raw in log)
+
+
 async def run_session(hass, sess, idx):
     from custom_components.pyscript.eval import AstEval
     from custom_components.pyscript.function import Function
@@ -229,16 +251,22 @@ async def run_session(hass, sess, idx):
     iopub_r.feed_data(GREETING)
     tasks = [
         asyncio.ensure_future(kernel.housekeep_run()),
-        asyncio.ensure_future(kernel.iopub_listen(iopub_r, LogWriter("ChIopub", log))),
+        asyncio.ensure_future(kernel.iopub_listen(iopub_r, LogWriter("ChIopub", log, slow=sess.get("slow1", 0), stall=sess.get("stall1")))),
         asyncio.ensure_future(kernel.shell_listen(shell_r, LogWriter("ChShell", log))),
     ]
     # optional second iopub subscriber (its messages are logged separately); it may disconnect during the session
     log2 = []
     iopub2_r = None
+    late = list(sess.get("second_sub_late") or [])   # request indices before which the next greeting piece arrives
+    pieces = [GREETING[:10], GREETING[10:11], GREETING[11:]]
+    hs_ref = b""
     if sess.get("second_sub"):
         iopub2_r = asyncio.StreamReader()
-        iopub2_r.feed_data(GREETING)
-        tasks.append(asyncio.ensure_future(kernel.iopub_listen(iopub2_r, LogWriter("ChIopub", log2))))
+        if late:
+            hs_ref = await reference_handshake("PUB")
+        else:
+            iopub2_r.feed_data(GREETING)
+        tasks.append(asyncio.ensure_future(kernel.iopub_listen(iopub2_r, LogWriter("ChIopub", log2, slow=sess.get("slow2", 0), stall=sess.get("stall2")))))
     await settle()
     start = len(log)
     start2 = len(log2)
@@ -247,6 +275,10 @@ async def run_session(hass, sess, idx):
     second_ok = True
     groups, reqs, tbl = [], [], []
     for n, spec in enumerate(sess["reqs"]):
+        while late and late[0] <= n and pieces and iopub2_r is not None:
+            late.pop(0)
+            iopub2_r.feed_data(pieces.pop(0))     # the slow second subscriber sends the next part of its greeting
+            await settle()
         if iopub2_r is not None and sess.get("second_sub_leaves_before") == n:
             iopub2_r.feed_eof()      # the second subscriber closes its connection
             await settle()
@@ -261,11 +293,40 @@ async def run_session(hass, sess, idx):
         new = log[start:]
         start = len(log)
         grp = [decode_out(ch, msg, key.encode(), header) for ch, raw in new for msg in asm[ch].feed(raw)]
-        if iopub2_r is not None:
-            # while connected, the second subscriber must receive exactly the broadcasts the first one receives
-            new2 = [decode_out(ch, msg, key.encode(), header) for ch, raw in log2[start2:] for msg in asm2.feed(raw)]
+        if iopub2_r is not None and hs_ref and pieces:
+            # still shaking hands: everything written to it so far must be a prefix of the handshake, nothing else
+            sofar = b"".join(raw for _c, raw in log2)
             start2 = len(log2)
-            if new2 != [o for o in grp if o["chan"] == "ChIopub"]:
+            if not hs_ref.startswith(sofar):
+                second_ok = False
+                grp.append({"chan": "ChIopub", "type": "MOther", "ids": [], "sig_ok": False, "parent_ok": False, "count": None,
+                            "second_subscriber_handshake_corrupted": True})
+        elif iopub2_r is not None:
+            # while connected, the second subscriber must receive exactly the broadcasts the first one receives
+            raw2 = log2[start2:]
+            if hs_ref:
+                # strip what remains of the handshake output (written when the last greeting piece arrived)
+                sofar = b"".join(raw for _c, raw in log2)
+                if not sofar.startswith(hs_ref):
+                    raw2 = [("ChIopub", b"\xff")]       # undecodable on purpose: handshake output corrupted
+                else:
+                    done = len(b"".join(raw for _c, raw in log2[:start2]))
+                    cutoff = max(0, len(hs_ref) - done)
+                    joined = b"".join(raw for _c, raw in raw2)[cutoff:]
+                    raw2 = [("ChIopub", joined)] if joined else []
+                    hs_ref_done = True
+            new2 = [decode_out(ch, msg, key.encode(), header) for ch, raw in raw2 for msg in asm2.feed(raw)]
+            start2 = len(log2)
+            if hs_ref and len(b"".join(raw for _c, raw in log2[:start2])) >= len(hs_ref):
+                hs_ref = b""                                 # handshake fully accounted for
+            first = [o for o in grp if o["chan"] == "ChIopub"]
+            nostream = lambda l: [o for o in l if o["type"] != "MStream"]  # noqa: E731
+            streams = lambda l: [o for o in l if o["type"] == "MStream"]  # noqa: E731
+            # both subscribers get the same broadcasts; stdout stream messages come from the house-keeping task, so only
+            # their number and "before the closing idle" are fixed, not their position relative to the other messages
+            same = (nostream(new2) == nostream(first) and streams(new2) == streams(first)
+                    and not (new2 and new2[-1]["type"] == "MStream"))
+            if not same:
                 second_ok = False
                 grp.append({"chan": "ChIopub", "type": "MOther", "ids": [], "sig_ok": False, "parent_ok": False, "count": None,
                             "second_subscriber_differs": True})
